@@ -40,6 +40,7 @@ class Models:
         from . import models_store
         models_store.register(self)
         models_store.register_linked(self)
+        models_store.register_btree(self)
         from . import models_sched
         models_sched.register(self)
         from . import models_user
@@ -921,6 +922,21 @@ def register_core(M):
         return z3.If(z3.UGE(x, y), x - y, bv(0, x.size()))
 
     # ------------------------------------------------------------ slices / vec (lazy part)
+    @reg('<impl>::get', 'Vec::get')
+    def _(ex, info, a, dty):
+        cell, path = ex.deref(a[0])
+        v = ex.read_path(cell, path)
+        while isinstance(v, Ref):
+            cell, path = v.cell, v.path
+            v = ex.read_path(cell, path)
+        if not (isinstance(v, Obj) and v.kind == 'vec') or not z3.is_bv(ex.materialize(a[1])):
+            return M.uninterpreted(ex, info, a, dty)
+        idx = ex.materialize(a[1])
+        for i in range(len(v.items)):
+            if ex.branch(idx == bv(i)):
+                return M.some(dty, Ref(cell, path + (('idx', bv(i)),)))
+        return M.none(dty)
+
     @reg('<impl>::last', '<impl>::first')
     def _(ex, info, a, dty):
         cell, path = ex.deref(a[0])
